@@ -23,6 +23,8 @@ import re
 
 import lib
 
+# the spec directory (an absolute path selects a working copy: edits are tried there and swapped into spec/fed when green)
+SPEC_DIR = os.environ.get("C01_SPEC_DIR", "fed")
 COSMO_BASE = "/root/go/pkg/mod/github.com/wundergraph/cosmo/router@v0.0.0-20260611115430-e8a965a40952/pkg/plan_generator/testdata/execution_config/base.json"
 CAL_CONFIGS = [
     ("{repo}/execution/engine/testdata/config_factory_federation/config.json", 0),
@@ -142,7 +144,7 @@ def calibrate(ctx, binary):
 
 
 def load_catalog(ctx):
-    r = ctx.tlc_must_pass("fed", "Gen_Catalog", "Gen_Catalog.cfg", workers=1, timeout=600, tag="catalog-sanity+emit")
+    r = ctx.tlc_must_pass(SPEC_DIR, "Gen_Catalog", "Gen_Catalog.cfg", workers=1, timeout=600, tag="catalog-sanity+emit")
     entries = [p for p in r.printed if "sgs" in p]
     pinned = [p for p in r.printed if "doc" in p]
     if not entries:
@@ -166,11 +168,11 @@ def generate(ctx, entries, quick):
                                  timeout=2400, deadlock=False, tag="gen-sim-deep")))
     out = {e["name"]: {"bfs": {}, "sim": {}} for e in entries}
 
-    keep = 4 * (260 if quick else 5000)      # per entry and job: enough for the replay sample, bounds the memory
+    keep = 4 * (200 if quick else 5000)      # per entry and job: enough for the replay sample, bounds the memory
 
     def one(job):
         kind, kw = job
-        r = ctx.tlc("fed", "Gen_C01", "Gen_C01.cfg", **kw)
+        r = ctx.tlc(SPEC_DIR, "Gen_C01", "Gen_C01.cfg", **kw)
         if not r.ok:
             print(r.out[-3000:])
             raise lib.Inconclusive("generator failed (%s): %s" % (kind, r.error))
@@ -207,7 +209,7 @@ def nontrivial(result):
 def validate_chunk(ctx, lines, n):
     path = ctx.path("trace-%03d.ndjson" % n)
     lib.write_ndjson(path, lines)
-    r = ctx.tlc("fed", "Trace_C01", "Trace_C01.cfg", workers=1, env={"TRACE": path, "JAVA_TOOL_OPTIONS": "-XX:ParallelGCThreads=2"},
+    r = ctx.tlc(SPEC_DIR, "Trace_C01", "Trace_C01.cfg", workers=1, env={"TRACE": path, "JAVA_TOOL_OPTIONS": "-XX:ParallelGCThreads=2"},
                 timeout=2400, deadlock=False, count=False, tag="trace-validation-%d" % n, heap="3g")
     bad = []
     stuck = None
@@ -466,8 +468,8 @@ def run(ctx):
     # ---- 2. model check the nondeterministic federated executor ----------------------------------
     empty_ops = ctx.path("no-ops.ndjson")
     lib.write_ndjson(empty_ops, [])
-    mc = ctx.tlc_must_pass("fed", "FedNondet", "MC_FedNondet.cfg", workers=8, timeout=1500, env={"C01_OPS": empty_ops}, tag="mc-fednondet")
-    neg = ctx.tlc("fed", "FedNondet", "MC_FedNondet_neg.cfg", workers=4, timeout=600, count=False, env={"C01_OPS": empty_ops},
+    mc = ctx.tlc_must_pass(SPEC_DIR, "FedNondet", "MC_FedNondet.cfg", workers=8, timeout=1500, env={"C01_OPS": empty_ops}, tag="mc-fednondet")
+    neg = ctx.tlc(SPEC_DIR, "FedNondet", "MC_FedNondet_neg.cfg", workers=4, timeout=600, count=False, env={"C01_OPS": empty_ops},
                   tag="mc-fednondet-negative")
     if neg.violated != "FedRefinesMonolith":
         raise lib.Inconclusive("sanity: with a universe whose keys are not unique the federated model must be able to diverge "
@@ -485,7 +487,7 @@ def run(ctx):
         nb, ns = len(bfs), len(sim)
         rng.shuffle(bfs)
         rng.shuffle(sim)
-        cap = 260 if quick else 5000
+        cap = 200 if quick else 5000
         bfs = bfs[:cap]
         sim = sim[:cap]
         stats[e["name"]] = {"bfs_generated": g["generated"]["bfs"], "sim_generated": g["generated"]["sim"], "distinct_kept": nb + ns,
@@ -505,7 +507,7 @@ def run(ctx):
     ops_path = ctx.path("fednondet-ops.ndjson")
     lib.write_ndjson(ops_path, ops)
     bg = concurrent.futures.ThreadPoolExecutor(max_workers=1)
-    mcf = bg.submit(ctx.tlc_must_pass, "fed", "FedNondet", "MC_FedNondet_file.cfg", workers=6, timeout=2400, env={"C01_OPS": ops_path},
+    mcf = bg.submit(ctx.tlc_must_pass, SPEC_DIR, "FedNondet", "MC_FedNondet_file.cfg", workers=6, timeout=2400, env={"C01_OPS": ops_path},
                     tag="mc-fednondet-generated-ops")
     stats["fednondet_generated_ops"] = len(ops)
     # ---- 4. replay --------------------------------------------------------------------------------
